@@ -73,6 +73,7 @@ fn decode_typed(ty: &str, inner: &[u8]) -> Result<Value, String> {
         "Pt" => from_json::<Pt>(inner).map(|v| j(&v)).map_err(|e| e.to_string()),
         "String" => from_json::<String>(inner).map(|v| j(&v)).map_err(|e| e.to_string()),
         "u64" => from_json::<u64>(inner).map(|v| j(&v)).map_err(|e| e.to_string()),
+        "Option<u64>" => from_json::<Option<u64>>(inner).map(|v| j(&v)).map_err(|e| e.to_string()),
         other => Err(format!("harness: no decoder for {other}")),
     }
 }
@@ -149,6 +150,7 @@ pub fn payload_decodable(m: &HandlerSpec, payload: &[u8]) -> bool {
     let tys: Vec<&str> = r.payload.iter().map(|a| a.ty).collect();
     match tys.as_slice() {
         ["Pay"] => from_json::<Pay>(payload).is_ok(),
+        ["Binary"] => from_json::<Binary>(payload).is_ok(),
         ["u64", "String", "Script"] => from_json::<(u64, String, rt::script::Script)>(payload).is_ok(),
         _ => false,
     }
